@@ -10,7 +10,8 @@ JSON line per mutant, and leaves the worktree with the three fixes applied.  Rem
 import subprocess, sys, os, re, json
 WT = "/tmp/c08-wt"
 VERIF = os.path.dirname(os.path.dirname(os.path.abspath(__file__)))
-FIXES = ["F11-atomic-write-keeps-mode", "F4-symlink-policy-survives-action-options", "F5-symlink-error-is-an-ordinary-exception"]
+# fixes not yet committed in /repo (F11, F4, F5 are in /repo HEAD)
+FIXES = [f[:-5] for f in sorted(os.listdir(os.path.join(os.path.dirname(os.path.dirname(os.path.abspath(__file__))), "fixes"))) if f.startswith("F11b-")]
 def sh(cmd, **kw):
     return subprocess.run(cmd, shell=True, stdout=subprocess.PIPE, stderr=subprocess.STDOUT, text=True, **kw)
 def reset():
@@ -22,7 +23,7 @@ MUT = {
  "c08-inplace": ("C08", "lib/python/pyflyby/_file.py", '    write_file(temp_filename, data)\n    try:\n        st = os.stat(str(filename))', '    write_file(filename, data)\n    return\n    try:\n        st = os.stat(str(filename))'),
  "c08-nochmod": ("C08", "lib/python/pyflyby/_file.py", '        os.chmod(str(temp_filename), st.st_mode)\n', '        pass\n'),
  "c08-nopid": ("C08", "lib/python/pyflyby/_file.py", 'Filename("%s.tmp.%s" % (filename, os.getpid(),))', 'Filename("%s.tmp.%s" % (filename, 0,))'),
- "c08-rename-first": ("C08", "lib/python/pyflyby/_file.py", '    if st is not None:\n        os.chmod(str(temp_filename), st.st_mode)', '    if st is not None:\n        os.rename(str(temp_filename), str(filename)); temp_filename = filename\n        os.chmod(str(temp_filename), st.st_mode)'),
+ "c08-rename-first": ("C08", "lib/python/pyflyby/_file.py", '    if st is not None:\n        try:\n            os.chown(', '    if st is not None:\n        os.rename(str(temp_filename), str(filename)); temp_filename = filename\n        try:\n            os.chown('),
  "c08-swallow-rename": ("C08", "lib/python/pyflyby/_file.py", '    os.rename(str(temp_filename), str(filename))\n\n\ndef expand_py', '    try:\n        os.rename(str(temp_filename), str(filename))\n    except OSError:\n        pass\n\n\ndef expand_py'),
  "c08-mode-777": ("C08", "lib/python/pyflyby/_file.py", 'os.chmod(str(temp_filename), st.st_mode)', 'os.chmod(str(temp_filename), st.st_mode & 0o777)'),
  # ---- C09 (lib/python/pyflyby/_cmdline.py)
@@ -34,6 +35,25 @@ MUT = {
  "c09-policy-appended": ("C09", "lib/python/pyflyby/_cmdline.py", 'parser.values.actions = (symlink_callbacks[value],) + parser.values.actions', 'parser.values.actions = parser.values.actions + (symlink_callbacks[value],)'),
  "c09-follow-noop": ("C09", "lib/python/pyflyby/_cmdline.py", '        m.filename = m.filename.realpath', '        pass'),
  "c09-exit1-ignored": ("C09", "lib/python/pyflyby/_cmdline.py", '        except Exit1:\n            exit_code = 1', '        except Exit1:\n            exit_code = 0'),
+ # ---- adversarial mutants reported by the coordinator (round 2)
+ "c09-follow-one-hop": ("C09", "lib/python/pyflyby/_cmdline.py", '        m.filename = m.filename.realpath', '        m.filename = Filename(os.path.join(os.path.dirname(str(m.filename)), os.readlink(str(m.filename))))'),
+ "c09-no-typeerror-guard": ("C09", "lib/python/pyflyby/_cmdline.py", """                    try:
+                        e = type_e("While processing %s: %s" % (filename, e))
+                        pass
+                    except TypeError:
+                        # Exception takes more than one argument
+                        pass""", """                    e = type_e("While processing %s: %s" % (filename, e))"""),
+ "c09-query-first-char": ("C09", "lib/python/pyflyby/_cmdline.py", "if input().strip().lower().startswith('y'):", "if input()[:1] in 'yY':"),
+ "c08-hardlink-inplace": ("C08", "lib/python/pyflyby/_file.py", '    temp_filename = Filename("%s.tmp.%s" % (filename, os.getpid(),))\n', '    if os.path.isfile(str(filename)) and not os.path.islink(str(filename)) and os.stat(str(filename)).st_nlink > 1:\n        write_file(filename, data)\n        return\n    temp_filename = Filename("%s.tmp.%s" % (filename, os.getpid(),))\n'),
+ "c08-chown-chmod-one-try": ("C08", "lib/python/pyflyby/_file.py", """            os.chown(str(temp_filename), -1, st.st_gid)
+        except OSError:
+            pass # not member of group
+        # chmod last: chown clears the set-user-ID / set-group-ID bits
+        os.chmod(str(temp_filename), st.st_mode)""", """            os.chown(str(temp_filename), -1, st.st_gid)
+            os.chmod(str(temp_filename), st.st_mode)
+        except OSError:
+            pass # not member of group"""),
+ "c08-suffix-at-import": ("C08", "lib/python/pyflyby/_file.py", 'def atomic_write_file(filename: Filename, data):\n    assert isinstance(filename, Filename)\n    data = FileText(data)\n    temp_filename = Filename("%s.tmp.%s" % (filename, os.getpid(),))', '_TMP_SUFFIX = os.getpid()\n\ndef atomic_write_file(filename: Filename, data):\n    assert isinstance(filename, Filename)\n    data = FileText(data)\n    temp_filename = Filename("%s.tmp.%s" % (filename, _TMP_SUFFIX,))'),
 }
 def main(names):
     out = {}
